@@ -191,6 +191,8 @@ def check_trotter(ctx):
             cands = [v for v in dt.defs.get(e.id, []) if isinstance(v, ast.BinOp)]
             if cands:
                 final = cands[-1]
+        elif isinstance(e, ast.BinOp):
+            final = e  # the composition is returned directly
     conj = _conjugation(final) if final is not None else None
     if conj is None:
         ctx.violation(R2, ft.key + ":outer-conjugation", f"the term circuit {short(final)} is not basis + core + basis.inverse() with the same basis-change circuit on both sides", ft)
@@ -234,6 +236,23 @@ def check_trotter(ctx):
                 oky = poly_eq(poly(c.func.args[0]), want)
     ctx.check(oky, R2, ft.key + ":basis-Y", "Y -> RX(pi/2) on that qubit", "a Y factor is not diagonalised by RX(pi/2) on its own qubit", ft)
     rz = [c for c in ast.walk(loop) if isinstance(c, ast.Call) and isinstance(c.func, ast.Call) and isinstance(c.func.func, ast.Name) and c.func.func.id == "RZ"]
+    if not rz:
+        # the other spelling of the same circuit: the ladder as consecutive pairs of the ascending qubits, the rotation on the last one
+        #   cnots = Circuit([CNOT(c, t) for c, t in zip(qubit_indices, qubit_indices[1:])]);  RZ(2*time*coefficient.real)(qubit_indices[-1])
+        rz_all = [c for c in body_walk(ft.node) if isinstance(c, ast.Call) and isinstance(c.func, ast.Call) and isinstance(c.func.func, ast.Name) and c.func.func.id == "RZ"]
+        cn_all = [c for c in body_walk(ft.node) if isinstance(c, ast.Call) and isinstance(c.func, ast.Name) and c.func.id == "CNOT"]
+        pair_comps = [n for n in body_walk(ft.node) if isinstance(n, (ast.ListComp, ast.GeneratorExp)) and len(n.generators) == 1 and not n.generators[0].ifs and norm(n.generators[0].iter) == "zip(qubit_indices, qubit_indices[1:])" and isinstance(n.generators[0].target, ast.Tuple) and len(n.generators[0].target.elts) == 2]
+        if len(rz_all) == 1 and len(cn_all) == 1 and len(pair_comps) == 1 and pair_comps[0].elt is cn_all[0]:
+            want = p_mul(p_const(2), p_mul(p_atom("time"), p_atom("term.coefficient.real")))
+            okrz = poly_eq(poly(rz_all[0].func.args[0]), want) and len(rz_all[0].args) == 1 and norm(rz_all[0].args[0]) == "qubit_indices[-1]"
+            ctx.check(okrz, R2, ft.key + ":central-rotation", "RZ(2*time*coefficient.real) on the last qubit", f"the central rotation is {short(rz_all[0])}, not RZ(2*time*term.coefficient.real) on the last of the ascending qubits", ft)
+            a, b = (norm(x) for x in pair_comps[0].generators[0].target.elts)
+            okcn = len(cn_all[0].args) == 2 and [norm(x) for x in cn_all[0].args] == [a, b]
+            ctx.check(okcn, R2, ft.key + ":ladder", "CNOT(q_i, q_{i+1}) ladder", f"CNOT ladder is {short(cn_all[0])} over consecutive pairs ({a}, {b}): not CNOT(current qubit, next qubit)", ft)
+            ctx.ok(R2, ft.key + ":last-qubit", "rotation on qubit_indices[-1], CNOTs over every consecutive pair before it", ft)
+        else:
+            ctx.undecided(R2, ft.key + ":central-rotation", "cannot find the central RZ and the CNOT ladder (neither inside the loop over the qubits nor as a pairwise comprehension)", ft)
+        return
     okrz = False
     if len(rz) == 1:
         want = p_mul(p_const(2), p_mul(p_atom("time"), p_atom("term.coefficient.real")))
